@@ -69,7 +69,8 @@ def run(ctx):
     if ctx.anchor(n1):
         b = ctx.body(n1)
         subs = call_blocks(b, r"Decimal::checked_sub$|CheckedSub.*::checked_sub$")
-        g = G_bool_call(r"PartialOrd.*::lt$|::lt$", False)
+        g = G_not_less(lambda a: a.kind == "param" and a.what == 1 and a.proj[-1:] == (".amount",), lambda a: a.kind == "param" and a.what == 2 and not a.proj,
+                       "self.amount >= amount_to_take (any syntactic form)")
         check_guarded(ctx, "take_by_amount|insufficient-balance-guard", b, subs + b.ok_exits(), [g], "balance subtraction / Ok")
         live = any(v.endswith("ResourceError::InsufficientBalance") for v in b.fn.vars)
         ctx.ob("take_by_amount|InsufficientBalance-live", live, "InsufficientBalance is constructed", b.loc())
